@@ -71,6 +71,7 @@ static SINK: Lazy<Mutex<Sink>> = Lazy::new(|| {
 
 thread_local! {
     static CTL_ID: Cell<u64> = const { Cell::new(0) };
+    static CTL_GEN: Cell<u64> = const { Cell::new(0) };
     static CUR_TASK: Cell<u64> = const { Cell::new(0) };
     static FREE_ID: Cell<u64> = const { Cell::new(0) };
 }
@@ -174,6 +175,21 @@ static CTL: Lazy<Ctl> = Lazy::new(|| Ctl {
     cv: Condvar::new(),
 });
 
+/// Generation of the current set of controlled threads. A thread left parked by an earlier run
+/// (a run that was cut off at its step budget) belongs to an older generation and must never run
+/// again: its id is reused by the next run.
+static GENERATION: AtomicU64 = AtomicU64::new(1);
+
+fn stale() -> bool {
+    CTL_GEN.with(|c| c.get()) != GENERATION.load(Ordering::SeqCst)
+}
+
+fn park_forever(mut g: std::sync::MutexGuard<'_, BTreeMap<u64, (TState, bool)>>) -> ! {
+    loop {
+        g = CTL.cv.wait(g).unwrap_or_else(|e| e.into_inner());
+    }
+}
+
 /// The hook primitive: record the step that was just taken and, on a controlled thread,
 /// park until the controller releases this thread again.
 pub fn point(label: &'static str, obj: u64, d: i64) {
@@ -199,9 +215,15 @@ fn park_here(label: &str, obj: u64, d: i64) {
         return;
     }
     let mut g = CTL.m.lock().unwrap_or_else(|e| e.into_inner());
+    if stale() {
+        park_forever(g);
+    }
     g.insert(id, (TState::AtPoint(label.to_string(), obj, d), false));
     CTL.cv.notify_all();
     loop {
+        if stale() {
+            park_forever(g);
+        }
         if g.get(&id).map(|e| e.1).unwrap_or(true) {
             g.insert(id, (TState::Running, false));
             return;
@@ -221,8 +243,10 @@ pub fn spawn_controlled<F: FnOnce() + Send + 'static>(
         .lock()
         .unwrap_or_else(|e| e.into_inner())
         .insert(id, (TState::Running, false));
+    let generation = GENERATION.load(Ordering::SeqCst);
     std::thread::spawn(move || {
         CTL_ID.with(|c| c.set(id));
+        CTL_GEN.with(|c| c.set(generation));
         park_here("start", 0, 0);
         let r = std::panic::catch_unwind(std::panic::AssertUnwindSafe(f));
         if r.is_err() {
@@ -283,9 +307,11 @@ pub fn step(id: u64) -> TState {
     }
 }
 
-/// Forget all controlled threads (between runs)
+/// Forget all controlled threads (between runs). Threads that are still parked stay parked for good.
 pub fn reset_threads() {
-    CTL.m.lock().unwrap_or_else(|e| e.into_inner()).clear();
+    let mut g = CTL.m.lock().unwrap_or_else(|e| e.into_inner());
+    GENERATION.fetch_add(1, Ordering::SeqCst);
+    g.clear();
 }
 
 struct MiniWaker {
@@ -331,6 +357,9 @@ pub fn block_on_mini<F: Future>(f: F) -> F::Output {
             continue;
         }
         let mut g = CTL.m.lock().unwrap_or_else(|e| e.into_inner());
+        if stale() {
+            park_forever(g);
+        }
         if mw.woken.load(Ordering::SeqCst) {
             g.insert(id, (TState::AtPoint("woken".to_string(), 0, 0), false));
         } else {
@@ -338,6 +367,9 @@ pub fn block_on_mini<F: Future>(f: F) -> F::Output {
         }
         CTL.cv.notify_all();
         loop {
+            if stale() {
+                park_forever(g);
+            }
             match g.get(&id) {
                 Some((TState::AtPoint(..), true)) => {
                     g.insert(id, (TState::Running, false));
@@ -783,6 +815,11 @@ pub fn admission_word(cell: &ActorCell) -> usize {
 
 pub fn num_children(cell: &ActorCell) -> usize {
     cell.inner.tree.get_children().len()
+}
+
+/// Whether the cell's child set has been closed for good by `take_children`
+pub fn children_closed(cell: &ActorCell) -> bool {
+    cell.inner.tree.verif_children_closed()
 }
 
 /// Deliver a supervision event to a cell's supervision port from outside (environment action)
